@@ -301,6 +301,9 @@ func isOOM(err error) bool {
 	return err != nil && (txerr.Is(txfile.OutOfMemory, err) || txerr.Is(txfile.NoDiskSpace, err))
 }
 
+// IsFull: the error says that the file is full (legitimate on bounded files).
+func IsFull(err error) bool { return isOOM(err) }
+
 func pqKind(err error) string {
 	if err == nil {
 		return ""
@@ -722,6 +725,28 @@ func (e *Engine) cbFlushed() uint {
 }
 
 // CheckCounters compares Pending / Active / Available / callbacks with the model.
+// CheckMetaAccounting: every page of the file's meta area is accounted for - free, an overwrite page, a mapping page or
+// a free-list page (between two queue operations no write transaction is open). A page the queue's transactions
+// drop without returning it (seeded change C12m: the overwrite page of a freed queue page) shows up here long before
+// the file runs out of space.
+func (e *Engine) CheckMetaAccounting(what string) {
+	if e.File == nil || e.Concurrent {
+		return
+	}
+	s := txfile.VerifSnapshot(e.File)
+	count := func(l []txfile.VerifRegion) (n uint64) {
+		for _, r := range l {
+			n += uint64(r.Count)
+		}
+		return n
+	}
+	inUse := uint64(len(s.WalMapping)) + count(s.WalMetaPages) + count(s.FreelistPages)
+	if uint64(s.MetaTotal) != count(s.MetaFree)+inUse {
+		e.fail("meta-area-accounting: %s: meta area of %d pages, but %d free + %d overwrite pages + %d mapping pages + %d free-list pages = %d", what,
+			s.MetaTotal, count(s.MetaFree), len(s.WalMapping), count(s.WalMetaPages), count(s.FreelistPages), count(s.MetaFree)+inUse)
+	}
+}
+
 func (e *Engine) CheckCounters(what string) {
 	if e.Queue == nil {
 		return
@@ -731,6 +756,7 @@ func (e *Engine) CheckCounters(what string) {
 			e.fail("%s: a counter query panicked: %v", what, r)
 		}
 	}()
+	e.CheckMetaAccounting(what)
 	pend := e.Flushed - e.Acked
 	if p, err := e.Queue.Pending(); err != nil || p != pend {
 		e.fail("%s: Pending() = %d (%v), flushed %d - acked %d = %d", what, p, err, e.Flushed, e.Acked, pend)
